@@ -164,7 +164,20 @@ def gen():
             return
         yield items[i]
     if kind == 'iterraise' and j == F: raise Boom()
-if kind in ('vlimit', 'ilimit'):
+if kind == 'ilimit':
+    # a limit on the (tiny) indices file cannot be produced with RLIMIT_FSIZE without also refusing the
+    # README / JSON writes: inject the refused write (partial bytes, then ENOSPC) into the indices append
+    _orig = ra._indices._append
+    _state = {'n': 0}
+    def _faulty(array, fd):
+        if _state['n'] == spec['done']:
+            arr = ra._indices._checkarrayforappend(array)
+            fd.seek(0, 2); fd.write(arr.tobytes()[:spec['partial']]); fd.flush()
+            raise OSError(28, 'No space left on device')
+        _state['n'] += 1
+        return _orig(array, fd)
+    ra._indices._append = _faulty
+if kind == 'vlimit':
     signal.signal(signal.SIGXFSZ, signal.SIG_IGN)
     resource.setrlimit(resource.RLIMIT_FSIZE, (spec['limit_bytes'], resource.getrlimit(resource.RLIMIT_FSIZE)[1]))
 out = {}
@@ -174,7 +187,7 @@ try:
     out['raised'] = None
 except BaseException as e:
     out['raised'] = type(e).__name__
-if kind in ('vlimit', 'ilimit'):
+if kind == 'vlimit':
     resource.setrlimit(resource.RLIMIT_FSIZE, (resource.RLIM_INFINITY, resource.getrlimit(resource.RLIMIT_FSIZE)[1]))
 model = subs + [np.asarray(items[i], dtype=dt) for i in range(spec['done'])]
 try:
@@ -217,10 +230,12 @@ def replay_fail(cex, d):
         whole, extra = divmod(int(fx['limit']), rbv)
         spec['limit_bytes'] = whole * rbv * rowscale + extra
     elif kind == 'ilimit':
-        # the indices file is tiny: the limit would also hit README/JSON writes; replay with
-        # a values-independent trick is impossible -> use the same structural position on values?
-        return {'reproduced': False, 'detail': 'ilimit replay not materialisable under RLIMIT_FSIZE '
-                                               '(limit below README size)', 'skip': True}
+        if fx.get('silent'):
+            return {'reproduced': False, 'skip': True,
+                    'detail': 'a SILENT refusal on the indices file cannot be injected without bypassing the code under test'}
+        room = int(fx['limit']) - K * rbi
+        spec['done'] = room // rbi
+        spec['partial'] = room % rbi
     with rp.scratch() as tmp:
         spec['path'] = tmp + '/r'
         rc, out, err = rp.run_child(_CHILD.replace('SPEC', repr(json.dumps(spec))))
